@@ -195,6 +195,10 @@ class Output(Formatter):
         """
         Formats the given string.
         """
+        if not self._format_output:
+            # What is formatted for an undecorated output carries no codes
+            return self._formatter.remove_format(string)
+
         return self._formatter.format(string, style)
 
     def remove_format(self, string):  # type: (str) -> str
